@@ -27,6 +27,7 @@ import (
 	"os"
 	"os/exec"
 	"path/filepath"
+	"reflect"
 	"runtime"
 	"sort"
 	"strconv"
@@ -131,16 +132,28 @@ func (x *c14Run) over() bool { return time.Since(x.start) > x.limit }
 
 // c14Ctx builds the context of execution j. In child mode the data and the stateless helpers live in the shared
 // parent and everything stateful (tick, the Go iterator, gid) is set on the child, which only goroutine j uses.
+// The context is made in each of the exported ways, by j: a root with NewContextWith(data) or NewContext() + Set;
+// a child with parent.New() + Set or NewContextWithOuter(data, parent).
 func c14Ctx(env string, parent *plush.Context, j int) *plush.Context {
 	if parent == nil {
 		d := c14Shared(env)
 		for k, v := range c13EnvLocal(env, j) {
 			d[k] = v
 		}
+		if j%3 == 2 {
+			c := plush.NewContext()
+			for k, v := range d {
+				c.Set(k, v)
+			}
+			return c
+		}
 		return plush.NewContextWith(d)
 	}
-	c := parent.New().(*plush.Context)
 	loc := c13EnvLocal(env, j)
+	if j%3 == 2 {
+		return plush.NewContextWithOuter(loc, parent)
+	}
+	c := parent.New().(*plush.Context)
 	for _, k := range []string{"gid", "it", "tick"} {
 		c.Set(k, loc[k])
 	}
@@ -151,26 +164,111 @@ func c14Exec(t *plush.Template, ctx *plush.Context) string {
 	return c13Canon(safeCall(20*time.Second, func() (string, error) { return t.Exec(ctx) }))
 }
 
-func c14Case(env, src string, g int) string {
-	return fmt.Sprintf("G=%d env=%s tmpl=%q", g, env, src)
+// The ways into the evaluator ("via"). The property speaks of executing one parsed template and of Parse/Render;
+// these are the exported functions that do that:
+//
+//	exec     t.Exec(ctx)
+//	clone    t.Clone().Exec(ctx)               a clone per execution: the tree is still the one parsed tree
+//	render   plush.Render(src, ctx)            parses, or is served from the cache
+//	reader   plush.RenderR(reader(src), ctx)
+//	script   plush.RunScript("%>"+src+"<% ", ctx)   executes on a child of ctx that it makes itself; the output is
+//	         discarded by RunScript, so only the error (and the race detector) is observed
+//	buffalo  plush.BuffaloRenderer(src, data, helpers)   the way buffalo drives plush: the data of one request and
+//	         ONE application-wide helpers map that every request hands in. It builds the (root) context itself, so it
+//	         exists for own-root contexts only. The goroutines of a case share one helpers map (which plush has no
+//	         business writing to); the sequential reference gets a helpers map of its own for every execution.
+//
+// Every third case runs through exec; the others rotate.
+var c14ViasRoot = []string{"exec", "buffalo", "clone", "exec", "render", "buffalo", "exec", "reader", "buffalo", "exec", "script"}
+var c14ViasChild = []string{"exec", "clone", "render", "exec", "reader", "script", "exec"}
+
+func c14ViaOf(i int, child bool) string {
+	if child {
+		return c14ViasChild[i%len(c14ViasChild)]
+	}
+	return c14ViasRoot[i%len(c14ViasRoot)]
+}
+
+func c14ViaKnown(via string, child bool) bool {
+	switch via {
+	case "exec", "clone", "render", "reader", "script":
+		return true
+	case "buffalo":
+		return !child
+	}
+	return false
+}
+
+// c14Buffalo splits the environment of execution j the way a buffalo application does: the functions are the
+// application's helpers, everything else (and what is per execution) is the data of the request.
+func c14Buffalo(env string, j int) (data, helpers map[string]interface{}) {
+	data, helpers = map[string]interface{}{}, map[string]interface{}{}
+	for k, v := range c14Shared(env) {
+		if v != nil && reflect.TypeOf(v).Kind() == reflect.Func {
+			helpers[k] = v
+		} else {
+			data[k] = v
+		}
+	}
+	for k, v := range c13EnvLocal(env, j) {
+		data[k] = v
+	}
+	return data, helpers
+}
+
+// c14Via runs execution j of (template, env) through one of the entry points. helpers is the shared helpers map
+// of via=buffalo (nil: one of its own).
+func c14Via(via string, t *plush.Template, src, env string, parent *plush.Context, j int, helpers map[string]interface{}) string {
+	if via == "buffalo" {
+		data, own := c14Buffalo(env, j)
+		if helpers == nil {
+			helpers = own
+		}
+		return c13Canon(safeCall(20*time.Second, func() (string, error) { return plush.BuffaloRenderer(src, data, helpers) }))
+	}
+	ctx := c14Ctx(env, parent, j)
+	return c13Canon(safeCall(20*time.Second, func() (string, error) {
+		switch via {
+		case "clone":
+			return t.Clone().Exec(ctx)
+		case "render":
+			return plush.Render(src, ctx)
+		case "reader":
+			return plush.RenderR(strings.NewReader(src), ctx)
+		case "script":
+			return "", plush.RunScript("%>"+src+"<% ", ctx)
+		}
+		return t.Exec(ctx)
+	}))
+}
+
+func c14Case(env, src string, g int, via string) string {
+	if via == "" || via == "exec" {
+		return fmt.Sprintf("G=%d env=%s tmpl=%q", g, env, src)
+	}
+	return fmt.Sprintf("G=%d env=%s via=%s tmpl=%q", g, env, via, src)
 }
 
 // sequential reference of (template, env, j); ok=false if the program is not deterministic when run alone
 // (that is C13's subject, e.g. the evaluation order of hash literals) or hangs.
 func c14Reference(t *plush.Template, env string, child bool, g int) ([]string, bool) {
+	return c14ReferenceVia("exec", t, t.Input, env, child, g)
+}
+
+func c14ReferenceVia(via string, t *plush.Template, src, env string, child bool, g int) ([]string, bool) {
 	var parent *plush.Context
 	if child {
 		parent = plush.NewContextWith(c14Shared(env))
 	}
 	want := make([]string, g)
 	for j := 0; j < g; j++ {
-		want[j] = c14Exec(t, c14Ctx(env, parent, j))
+		want[j] = c14Via(via, t, src, env, parent, j, nil)
 		if want[j] == "HANG" {
 			return nil, false
 		}
 		if j < 3 {
 			for k := 0; k < 2; k++ {
-				if c14Exec(t, c14Ctx(env, parent, j)) != want[j] {
+				if c14Via(via, t, src, env, parent, j, nil) != want[j] {
 					return nil, false
 				}
 			}
@@ -194,6 +292,7 @@ func (x *c14Run) mark(cs string) {
 type c14Only struct {
 	g   int
 	env string
+	via string
 	src string
 }
 
@@ -203,7 +302,13 @@ func c14ParseOnly(detail string) (*c14Only, bool) {
 	if i < 0 {
 		return nil, false
 	}
-	if _, err := fmt.Sscanf(detail[:i], "G=%d env=%s", &o.g, &o.env); err != nil || o.g < 1 || o.g > 64 {
+	head := detail[:i]
+	o.via = "exec"
+	if k := strings.Index(head, " via="); k >= 0 {
+		o.via = strings.TrimSpace(head[k+len(" via="):])
+		head = head[:k]
+	}
+	if _, err := fmt.Sscanf(head, "G=%d env=%s", &o.g, &o.env); err != nil || o.g < 1 || o.g > 64 {
 		return nil, false
 	}
 	src, err := strconv.Unquote(strings.TrimSpace(detail[i+len(" tmpl="):]))
@@ -227,7 +332,7 @@ func (x *c14Run) scenarioA(sp c14Spec, rng *Rng) {
 			if cacheOn && i%2 == 0 {
 				plush.VerifCacheReset()
 			}
-			x.oneA(x.only.src, x.only.env, x.only.g, nil, child, cacheOn)
+			x.oneA(x.only.src, x.only.env, x.only.g, x.only.via, nil, child, cacheOn)
 		}
 		return
 	}
@@ -237,7 +342,7 @@ func (x *c14Run) scenarioA(sp c14Spec, rng *Rng) {
 		src, kinds := gen.Program()
 		env := c13EnvNames[i%len(c13EnvNames)]
 		g := c14Gs[i%len(c14Gs)]
-		x.oneA(src, env, g, kinds, child, cacheOn)
+		x.oneA(src, env, g, c14ViaOf(i, child), kinds, child, cacheOn)
 	}
 	// the shape programs: every list-bearing construct at the lengths 0..9, 12, 17, at rotating positions
 	si := 0
@@ -256,29 +361,38 @@ func (x *c14Run) scenarioA(sp c14Spec, rng *Rng) {
 		src := c14ShapeProgram(sr.Fork(uint64(i)), sh)
 		env := c13EnvNames[(i+si)%len(c13EnvNames)]
 		g := c14Gs[(i+si)%len(c14Gs)]
-		x.oneA(src, env, g, []string{"shape:" + sh.fam, "shape-len:" + strconv.Itoa(sh.k), "shape-at:" + sh.pos}, child, cacheOn)
+		x.oneA(src, env, g, c14ViaOf(i+si+sh.k, child), []string{"shape:" + sh.fam, "shape-len:" + strconv.Itoa(sh.k), "shape-at:" + sh.pos}, child, cacheOn)
 	}
 }
 
 // oneA runs one case of scenario (a).
-func (x *c14Run) oneA(src, env string, g int, kinds []string, child, cacheOn bool) {
+func (x *c14Run) oneA(src, env string, g int, via string, kinds []string, child, cacheOn bool) {
 	reps := 2
 	{
-		cs := c14Case(env, src, g)
+		cs := c14Case(env, src, g, via)
 		x.mark(cs)
+		if !c14ViaKnown(via, child) {
+			x.rep.Notes = append(x.rep.Notes, "via="+via+" does not exist in this scenario")
+			return
+		}
 		t, err := plush.Parse(src) // with the cache on this also fills the cache
 		if err != nil {
 			x.rep.Count(cs, false)
 			x.tag("parse-error")
 			return
 		}
-		want, ok := c14Reference(t, env, child, g)
+		want, ok := c14ReferenceVia(via, t, src, env, child, g)
 		if !ok {
 			x.rep.Count(cs, false)
 			x.tag("skipped-not-deterministic-alone")
 			return
 		}
 		x.rep.Count(cs, true)
+		x.tag("via:" + via)
+		var helpers map[string]interface{}
+		if via == "buffalo" {
+			_, helpers = c14Buffalo(env, 0) // the application's helpers: one map for all executions of the case
+		}
 		for _, k := range kinds {
 			if strings.HasPrefix(k, "shape") {
 				x.tag(k)
@@ -311,7 +425,7 @@ func (x *c14Run) oneA(src, env string, g int, kinds []string, child, cacheOn boo
 							return
 						}
 					}
-					got := c14Exec(tt, c14Ctx(env, parent, j))
+					got := c14Via(via, tt, src, env, parent, j, helpers)
 					if got != want[j] && atomic.AddInt32(&bad, 1) == 1 {
 						kind, site := "wrong-output", "concurrent-exec-differs-from-sequential"
 						switch {
@@ -403,11 +517,20 @@ func (x *c14Run) scenarioB(sp c14Spec, rng *Rng) {
 			} else if got == "HANG" {
 				kind, site = "hang", "concurrent-cache-"+op
 			}
-			x.fail(c14Case(it.env, it.src, g), kind, site, "alone "+c13Short(it.want)+", concurrently with the cache on "+c13Short(got))
+			x.fail(c14Case(it.env, it.src, g, ""), kind, site, "alone "+c13Short(it.want)+", concurrently with the cache on "+c13Short(got))
 		}
 	}
+	// the application-wide helpers of BuffaloRenderer: one map per environment, handed in by every goroutine
+	appHelpers := map[string]map[string]interface{}{}
+	for _, env := range c13EnvNames {
+		_, appHelpers[env] = c14Buffalo(env, 0)
+	}
 	one := func(it item, g, j int, op int) {
-		switch op % 3 {
+		switch op % 4 {
+		case 3:
+			data, _ := c14Buffalo(it.env, 0)
+			o := safeCall(20*time.Second, func() (string, error) { return plush.BuffaloRenderer(it.src, data, appHelpers[it.env]) })
+			check(it, g, "buffalo", c13Canon(o))
 		case 0:
 			o := safeCall(20*time.Second, func() (string, error) { return plush.Render(it.src, c14Ctx(it.env, nil, 0)) })
 			check(it, g, "render", c13Canon(o))
@@ -423,12 +546,12 @@ func (x *c14Run) scenarioB(sp c14Spec, rng *Rng) {
 			})
 			check(it, g, "parse-exec", c13Canon(o))
 			if t != nil && t.Input != it.src {
-				x.fail(c14Case(it.env, it.src, g), "wrong-output", "cache-returns-other-template", "Parse returned a template for "+c13Short(strconv.Quote(t.Input)))
+				x.fail(c14Case(it.env, it.src, g, ""), "wrong-output", "cache-returns-other-template", "Parse returned a template for "+c13Short(strconv.Quote(t.Input)))
 			}
 		default:
 			t, err := plush.Parse(it.src)
 			if err == nil && t != nil && t.Input != it.src {
-				x.fail(c14Case(it.env, it.src, g), "wrong-output", "cache-returns-other-template", "Parse returned a template for "+c13Short(strconv.Quote(t.Input)))
+				x.fail(c14Case(it.env, it.src, g, ""), "wrong-output", "cache-returns-other-template", "Parse returned a template for "+c13Short(strconv.Quote(t.Input)))
 			}
 			if (err != nil) != strings.HasPrefix(it.want, "ERR:") && err != nil {
 				check(it, g, "parse", c13Canon(Obs{Err: err}))
@@ -446,8 +569,8 @@ func (x *c14Run) scenarioB(sp c14Spec, rng *Rng) {
 				g = x.only.g
 				plush.VerifCacheReset()
 			}
-			x.mark(c14Case(it.env, it.src, g))
-			x.rep.Count(c14Case(it.env, it.src, g), true)
+			x.mark(c14Case(it.env, it.src, g, ""))
+			x.rep.Count(c14Case(it.env, it.src, g, ""), true)
 			x.tag(it.want[:strings.Index(it.want, ":")+1] + "outcome")
 			var wg sync.WaitGroup
 			gate := make(chan struct{})
@@ -482,7 +605,7 @@ func (x *c14Run) scenarioB(sp c14Spec, rng *Rng) {
 				<-gate
 				for k := 0; k < 40; k++ {
 					it := pool[(round*7+jr.Intn(24))%len(pool)]
-					one(it, g, j, jr.Intn(3))
+					one(it, g, j, jr.Intn(4))
 				}
 			}(j, jr)
 		}
@@ -1008,7 +1131,7 @@ func c14Orchestrate(cfg Config, rep *Report, names []string) {
 func init() {
 	oracles["C14"] = func(cfg Config) []*Report {
 		rep := NewReport("C14", "C14", cfg)
-		rep.Rule = "scenarios, each in its own process, 2-32 goroutines: (a) one generated template (every construct; hash literals without side effects, no writes to shared data; plus shape programs: every list-bearing construct - else-if chain, call arguments, parameters, array/hash elements, block statements, operator chains, nesting - at the lengths 0..9, 12, 17 and at every statement position) parsed once or served from the cache, executed concurrently on own root contexts or on children of ONE shared parent, each result compared with the sequential result of the same (template, context); (b) concurrent Parse/Render of the same uncached input and of overlapping sets of inputs with the cache on; (c) Set/Value/Has/New mixes on ONE context and its child, once staggered in time (races without the fatal map check) and once at full contention. A case is one (scenario, template, data, G); race reports are bucketed by the top plush frames of the two accesses"
+		rep.Rule = "scenarios, each in its own process, 2-32 goroutines: (a) one generated template (every construct; hash literals without side effects, no writes to shared data; plus shape programs: every list-bearing construct - else-if chain, call arguments, parameters, array/hash elements, block statements, operator chains, nesting - at the lengths 0..9, 12, 17 and at every statement position; plus calls of Go helpers that use what the evaluator hands them as scratch space for the duration of the call - options and helper context left out by the call, hash and array literals) parsed once or served from the cache, executed concurrently on own root contexts or on children of ONE shared parent (contexts made in every exported way), through every exported way into the evaluator (via: Exec, Clone+Exec, Render, RenderR, RunScript, and BuffaloRenderer with per-execution data and ONE helpers map shared by the goroutines), each result compared with the sequential result of the same (template, context, via); (b) concurrent Parse/Render/BuffaloRenderer of the same uncached input and of overlapping sets of inputs with the cache on; (c) Set/Value/Has/New mixes on ONE context and its child, once staggered in time (races without the fatal map check) and once at full contention. A case is one (scenario, template, data, G); race reports are bucketed by the top plush frames of the two accesses"
 		if strings.HasPrefix(cfg.Arg, "child:") {
 			name := strings.TrimPrefix(cfg.Arg, "child:")
 			rep.Stream = "C14-child"
